@@ -629,6 +629,13 @@ func corpus() []Replay {
 			Sel: &SelectSpec{Limit: 2, Stream: true, Wait: true, Apps: []SelApp{{Before: 2, Apps: []Batch{{0, []Ev{{1004, "m00004", ""}, {1005, "m00005", "c=d"}}}}},
 				{Before: 3, Apps: []Batch{{0, []Ev{{1006, "m00006", ""}}}}}}},
 		},
+		{ // api.Select in stream mode from Pos "tail": the first page is empty, the loop has to go on with the concrete
+			// position that page returned (not with "tail" again); events arrive before its 2nd, 3rd and 4th query
+			Name: "select-stream-from-tail", Chunk: 1000000, Start: "tail",
+			Init: one(Ev{1001, "m00001", ""}, Ev{1002, "m00002", "a=b"}, Ev{1003, "m00003", ""}),
+			Sel: &SelectSpec{Limit: 2, Stream: true, Apps: []SelApp{{Before: 1, Apps: []Batch{{0, []Ev{{1004, "m00004", ""}, {1005, "m00005", "c=d"}}}}},
+				{Before: 2, Apps: []Batch{{0, []Ev{{1006, "m00006", ""}}}}}, {Before: 3, Apps: []Batch{{0, []Ev{{1007, "m00007", ""}, {1008, "m00008", ""}, {1009, "m00009", ""}}}}}}},
+		},
 		{ // the plain chain on a 7-event/3-chunk store, every resume kind, page edges on chunk edges
 			Name: "chain-all-kinds", Chunk: 60,
 			Init: one(Ev{1001, "m00001", ""}, Ev{1002, "m00002", "a=b"}, Ev{1003, "m00003", ""}, Ev{1004, "m00004", "c=d"}, Ev{1005, "m00005", ""},
@@ -991,6 +998,39 @@ func eofWindow() []Replay {
 				out = append(out, rp)
 			}
 		}
+	}
+	// the other window: a page that STARTS at the end of the data (a cursor rebuilt from the Pos, or the kept one); the
+	// flush lands right after the chunk selector has read the chunk's count for its status - the count it decides
+	// "nothing left" by: the position it answers with is that count, the flushed events are for the following pages
+	for i, kind := range []string{"posonly", "same", "evict", "zero"} {
+		cached := i%2 == 1
+		nparts := 1 + i%2
+		rp := Replay{Name: fmt.Sprintf("eof-window-count-%s-%d", kind, nparts), Chunk: 1000000}
+		ts := int64(1000)
+		ev := func() Ev {
+			ts++
+			return Ev{Ts: ts, Msg: fmt.Sprintf("m%05d", ts%100000)}
+		}
+		for p := 0; p < nparts; p++ {
+			rp.Init = append(rp.Init, Batch{Part: p, Evs: []Ev{ev(), ev(), ev()}})
+		}
+		rp.Flt = Filter{Range: true, Lo: 0, Hi: ts + 1000000}
+		app := func(p, k int) []Batch {
+			b := Batch{Part: p}
+			for n := 0; n < k; n++ {
+				b.Evs = append(b.Evs, ev())
+			}
+			return []Batch{b}
+		}
+		big := int64(100)
+		if cached {
+			big = 10001
+		}
+		rp.Steps = []Step{{Kind: "same", Limit: big},
+			{Kind: kind, Limit: big, Win: true, WinKind: "count", Apps: app(0, 3)},
+			{Kind: kind, Limit: 2}, {Kind: "same", Limit: big, Win: true, WinKind: "count", Apps: app(nparts-1, 2)},
+			{Kind: "same", Limit: big}, {Kind: kind, Limit: 7}}
+		out = append(out, rp)
 	}
 	// small chunks: the flush in the window goes into a new chunk (the page reads it at once), or - two writes, the first
 	// fits into the reader's chunk, the second does not - extends the chunk AND starts a new one
